@@ -18,11 +18,13 @@ def edge (p : Params) (s : S) : Op → Status → Status → Prop
   | .sig v signed _, a, b => a = .active ∧ (b = .active ∨ (b = .inactive ∧ signed = false ∧ (sigCounters p s v signed).mis > p.maxMischance))
   | .jail _ _, a, b => a ≠ .jailed ∧ b = .jailed
   | .unjail v now, a, b => a = .jailed ∧ b = .inactive ∧ ∃ jt, s.jailTime v = some jt ∧ now ≤ jt + p.unjailMaxTime
+  | .evidence _ _ known stale, a, b => known = true ∧ stale = false ∧ a ≠ .jailed ∧ b = .jailed
   | .kPause _, a, b => a ≠ .inactive ∧ b = .paused
   | .rankReset, _, b => b = .active
 
 def target : Op → Option Nat
-  | .msgPause v | .msgUnpause v | .msgActivate v _ | .sig v _ _ | .jail v _ | .unjail v _ | .kPause v => some v
+  | .msgPause v | .msgUnpause v | .msgActivate v _ | .sig v _ _ | .jail v _ | .unjail v _ | .kPause v
+  | .evidence v _ _ _ => some v
   | .rankReset => none
 
 theorem upd_same {α} (f : Nat → α) (v : Nat) (x : α) : upd f v x v = x := by simp [upd]
@@ -98,6 +100,18 @@ theorem transitions (p : Params) (hmax : 0 ≤ p.maxMischance) (s s' : S) (op : 
       by_cases e : w = v
       · subst e; right; simp [target, edge, demote, upd, hst]
       · left; simp [demote, upd, e]
+  | evidence v now known stale =>
+    simp only [step] at hs
+    by_cases hk : known = true ∧ stale = false
+    · rw [if_pos hk] at hs
+      cases hst : s.status v with
+      | jailed => simp [hst] at hs; subst hs; left; rfl
+      | active | inactive | paused =>
+        simp [hst] at hs; subst hs
+        by_cases e : w = v
+        · subst e; right; simp [target, edge, demote, upd, hst, hk.1, hk.2]
+        · left; simp [demote, upd, e]
+    · rw [if_neg hk] at hs; simp at hs; subst hs; left; rfl
   | unjail v now =>
     simp only [step] at hs
     cases hst : s.status v <;> cases hj : s.jailTime v <;> simp [hst, hj] at hs
@@ -120,8 +134,8 @@ theorem transitions (p : Params) (hmax : 0 ≤ p.maxMischance) (s s' : S) (op : 
     subst hs
     right; exact ⟨Or.inr rfl, rfl⟩
 
-/-- **valid double-sign evidence always jails the offender** (slashing Jail on a validator that is not jailed yet) -/
-theorem evidence_jails (p : Params) (s : S) (v : Nat) (now : Int) :
+/-- slashing Jail on a validator that is not jailed yet (slash proposal path, and the core of the evidence path) -/
+theorem jail_jails (p : Params) (s : S) (v : Nat) (now : Int) :
     ∃ s', step p s (.jail v now) = some s' ∧ s'.status v = .jailed := by
   simp only [step]
   cases hst : s.status v
@@ -129,6 +143,29 @@ theorem evidence_jails (p : Params) (s : S) (v : Nat) (now : Int) :
   · exact ⟨_, rfl, by simp [demote, upd]⟩
   · exact ⟨_, rfl, by simp [demote, upd]⟩
   · exact ⟨s, rfl, hst⟩
+
+/-- **valid double-sign evidence always jails the offender** — whatever its status when the evidence is handled
+(active, paused by its owner after the infraction, inactivated for downtime earlier in the same BeginBlock, or jailed
+already): the evidence handler never fails, the offender is jailed afterwards, queued for removal from the consensus
+set if it was not jailed before, and nobody else's status changes -/
+theorem evidence_jails (p : Params) (s : S) (v : Nat) (now : Int) :
+    ∃ s', step p s (.evidence v now true false) = some s' ∧ s'.status v = .jailed ∧
+      (s.status v ≠ .jailed → s'.R v = true ∧ s'.A v = false) ∧ ∀ w, w ≠ v → s'.status w = s.status w := by
+  simp only [step]
+  cases hst : s.status v
+  · exact ⟨_, rfl, by simp [demote, upd], fun _ => by simp [demote, upd], fun w hw => by simp [demote, upd, hw]⟩
+  · exact ⟨_, rfl, by simp [demote, upd], fun _ => by simp [demote, upd], fun w hw => by simp [demote, upd, hw]⟩
+  · exact ⟨_, rfl, by simp [demote, upd], fun _ => by simp [demote, upd], fun w hw => by simp [demote, upd, hw]⟩
+  · exact ⟨_, rfl, by simp [hst], fun h => absurd rfl h, fun w _ => rfl⟩
+
+/-- evidence that cannot be used (unknown consensus key, or older than both age limits) changes nothing -/
+theorem unusable_evidence_ignored (p : Params) (s : S) (v : Nat) (now : Int) (known stale : Bool)
+    (h : known = false ∨ stale = true) : step p s (.evidence v now known stale) = some s := by
+  simp only [step]
+  rcases h with h | h <;> simp [h]
+
+example : ∃ s', step {} ({ status := fun _ => .paused } : S) (.evidence 0 7 true false) = some s' ∧ s'.status 0 = .jailed :=
+  ⟨_, rfl, by simp [demote, upd]⟩
 
 /-- **missing more consecutive blocks than allowed always inactivates**: an active validator whose mischance counter
 passes the maximum with this missed block becomes inactive (and is queued for removal from the consensus set) -/
@@ -237,6 +274,12 @@ theorem rank_streak_nonneg (p : Params) (hp : p.inactiveRankPct ≤ Dec.one) (s 
   | jail v now =>
     simp only [step] at hs
     cases hst : s.status v <;> simp [hst] at hs <;> subst hs <;> exact h
+  | evidence v now known stale =>
+    simp only [step] at hs
+    by_cases hk : known = true ∧ stale = false
+    · rw [if_pos hk] at hs
+      cases hst : s.status v <;> simp [hst] at hs <;> subst hs <;> exact h
+    · rw [if_neg hk] at hs; simp at hs; subst hs; exact h
   | unjail v now =>
     simp only [step] at hs
     cases hst : s.status v <;> cases hj : s.jailTime v <;> simp [hst, hj] at hs
@@ -263,6 +306,7 @@ theorem leaves_jail_only_by (p : Params) (hmax : 0 ≤ p.maxMischance) (s s' : S
     | msgActivate w now => simp [edge, hj] at he
     | sig w sg now => simp [edge, hj] at he
     | jail w now => simp [edge, hj] at he
+    | evidence w now known stale => simp [edge, hj] at he
     | unjail w now =>
       simp only [target] at ht
       rcases ht with ht | ht
